@@ -137,6 +137,13 @@ def r_rpwidth(db, rep):
             names = sorted("".join(m) for m in pl if m)
             if len(pl) == 2 and all(c == 1 for c in pl.values()) and any(x.endswith("rules") for x in names) and any(x.endswith("terminals") for x in names):
                 ok = True
+        # the width obtained from the grammar object itself: RePair::getBits() is one of the checked sites
+        if not ok and s[0] == "call" and s[1] == "getBits":
+            w0 = strip(warg)
+            ini = single_def_init(f, w0["d"]) if w0["k"] == "DeclRefExpr" and w0.get("dk") == "local" else None
+            call = strip(ini) if ini is not None else w0
+            if call["k"] == "CXXMemberCallExpr" and call.get("frec") == "RePair" and callee_name(call) == "getBits" and f.qn != "RePair::getBits":
+                ok = True
         if not ok:
             rep.viol("%s#width:%s" % (f.qn, what), f.nloc(n),
                      "%s sizes identifier storage with %s instead of bits(rules + terminals): the largest rule identifier may not fit" % (f.qn, canon(s)), f.qn)
@@ -288,6 +295,10 @@ def r_backptr(db, rep):
             for x in walk(s["idx"]):
                 if x["k"] == "MemberExpr" and x.get("n") == fld:
                     b = strip(x["base"])
+                    if b["k"] == "DeclRefExpr" and b.get("dk") == "local":      # Trecord &r = rec[id];  ... pairs[r.hpos] = id
+                        ini = single_def_init(f, b["d"])
+                        if ini is not None:
+                            b = strip(ini)
                     if b["k"] == "ArraySubscriptExpr" and canon(sb.sym(b["idx"])) == V:
                         ok = "slot is rec[id].%s" % fld
             # paired update in the same function
